@@ -465,6 +465,11 @@ fn gen_bin(rng: &mut Rng, big_ok: bool) -> Vec<u8> {
     let n = gen_len(rng, big_ok);
     (0..n).map(|_| rng.below(256) as u8).collect()
 }
+/// topic filters: mostly arbitrary strings, sometimes shared-subscription filters with a valid or an invalid ShareName
+fn gen_filter(rng: &mut Rng) -> Vec<u8> {
+    if rng.chance(2, 3) { return gen_str(rng, false) }
+    rng.pick(&[&b"$share/g/t"[..], b"$share/grp/a/+", b"$share/g/#", b"$share/g/t", b"$share/+/t", b"$share/g#/t", b"$share//t", b"$share/g", b"$share/", b"$shar/x", b"$SHARE/g/t"]).to_vec()
+}
 fn gen_topic(rng: &mut Rng, big_ok: bool) -> Vec<u8> {
     let mut t = gen_str(rng, big_ok);
     for b in t.iter_mut() {
@@ -588,7 +593,7 @@ pub fn gen_body(rng: &mut Rng, ver: u64, ty: u64, spoil: bool) -> Body {
             let entries = (0..n).map(|_| {
                 let q = rng.below(3);
                 let op = if v5 { q | (rng.below(2) << 2) | (rng.below(2) << 3) | (rng.below(3) << 4) } else { q };
-                (gen_str(rng, false), op)
+                (gen_filter(rng), op)
             }).collect();
             Body::Subscribe { pid: gen_pid_p(rng, spoil, 1, 3), props: if v5 { gen_props_p(rng, 8, spoil, 1, 3) } else { vec![] }, entries }
         }
@@ -599,7 +604,7 @@ pub fn gen_body(rng: &mut Rng, ver: u64, ty: u64, spoil: bool) -> Body {
         }
         10 => {
             let n = if spoil && rng.chance(1, 3) { 0 } else { rng.range(1, 4) };
-            Body::Unsubscribe { pid: gen_pid_p(rng, spoil, 1, 3), props: if v5 { gen_props_p(rng, 10, spoil, 1, 3) } else { vec![] }, filters: (0..n).map(|_| gen_str(rng, false)).collect() }
+            Body::Unsubscribe { pid: gen_pid_p(rng, spoil, 1, 3), props: if v5 { gen_props_p(rng, 10, spoil, 1, 3) } else { vec![] }, filters: (0..n).map(|_| gen_filter(rng)).collect() }
         }
         11 => {
             let n = if !v5 { 0 } else if spoil && rng.chance(1, 3) { 0 } else { rng.range(1, 5) };
@@ -902,7 +907,13 @@ pub fn replay_line(t: &[u64]) -> String {
 fn mutate_bytes(rng: &mut Rng, mut b: Vec<u8>) -> Vec<u8> {
     let n = 1 + rng.below(3);
     for _ in 0..n {
-        match rng.below(12) {
+        match rng.below(13) {
+            12 => {
+                // spoil the ShareName of a shared-subscription filter, keeping the bytes well-formed
+                if let Some(i) = b.windows(7).position(|w| w == b"$share/") {
+                    if i + 7 < b.len() { b[i + 7] = *rng.pick(&[b'+', b'#', b'/']) }
+                }
+            }
             9 | 10 | 11 => {
                 // a property identifier replaced by another identifier whose value has the same shape (the bytes stay
                 // well-formed; the property may now be one that is not permitted here, or a second occurrence)
